@@ -50,6 +50,7 @@ fn check_method(m: &MDesc, len: u64, class: usize, seed: u64, nchunkings: usize,
 		let r2 = reference(m, &par, &init, &xs, true);
 		(r0, r2)
 	});
+	r.case_named(m.name, &[9, reg::json_hash(&par.show()), reg::ins_hash(&xs)]);
 	let (r0, r2) = match res {
 		Ok((Some(a), Some(b))) => (a, b),
 		Ok(_) => return, // constructor rejected: not a C09 matter
@@ -219,6 +220,7 @@ fn check_indicator(d: &reg::IDesc, cfg: &dyn reg::DC, cs: &[Candle], seed: u64, 
 		_ => return,
 	};
 	r.eval(cs.len() as u64);
+	r.case_named(d.name, &[91, reg::json_hash(&cfgv), reg::candles_hash(cs)]);
 	let eq = |a: &[IndicatorResult], b: &[IndicatorResult]| a.len() == b.len() && a.iter().zip(b.iter()).all(|(x, y)| res_bits(x) == res_bits(y));
 	let mut rng = Rng::new(seed);
 	let leaked: &'static [Candle] = Box::leak(cs.to_vec().into_boxed_slice());
